@@ -2,6 +2,7 @@ import Driver.Util
 import Driver.Vec
 import Driver.Queue
 import Driver.PubSub
+import Driver.Blackboard
 import Driver.EventSeq
 import Driver.ResizeMem
 import Driver.Channel
@@ -50,6 +51,7 @@ def components : List (String × Comp) := [
   ("vec", VecD.comp),
   ("queue", QueueD.comp),
   ("pubsub", PubSubD.comp),
+  ("blackboard", BlackboardD.comp),
   ("eventseq", EventSeqD.comp),
   ("resize", ResizeMemD.comp),
   ("zcc", ChannelD.comp),
